@@ -33,7 +33,7 @@ def gen_sets(ctx):
     sets.append(P.PSet({"f%02d" % i: L.gen_content(rng, "random", rng.randrange(1, 40)) for i in range(12)}, 8, 5, tag="12 files"))
     # slice sizes that are not a multiple of 16, split over several goroutines: the workers' byte ranges are multiples of 16
     # and the last one is a short tail (slice 100 / 8 workers: 6 x 16 + 4; 36 / 3: 16 + 16 + 4; 132 / 8; 52 / 4; 20 / 2)
-    for S_, g_ in ((100, 8), (36, 3), (132, 8), (52, 4), (20, 2), (68, 16), (100, 1), (68, 1), (132, 1), (76, 2)):
+    for S_, g_ in ((100, 8), (36, 3), (132, 8), (52, 4), (20, 2), (68, 16), (100, 1), (68, 1), (132, 1), (76, 2), (100, 4), (68, 3), (200, 6)):
         sets.append(P.PSet({"t.bin": L.gen_content(rng, "random", 3 * S_ + 5), "u": L.gen_content(rng, "random", S_ - 1)}, S_, 3, g=g_, tag="slice %d x %d goroutines" % (S_, g_)))
     # file ids (MD5 of 16k-hash, length, name) that agree in their most significant bytes (15, 14 and - for one pair - 13..):
     # the ascending order of the main packet is then decided by LOW bytes of the 128-bit little-endian number
